@@ -33,12 +33,44 @@ I = z3.IntSort()
 M = S.Poly.sym("M")
 
 
+SET_ORDER = {"reverse": False}
+
+
+class DetSet:
+    """`set` of the re-bound namespaces: same members as the built-in set, but with a DETERMINISTIC iteration order (insertion order, or its
+    reverse: run_structure alternates between the two from structure to structure).  getBH_level2 iterates `set(src_list + sensors)`; the
+    built-in orders objects by their addresses, which change from one replay of a path to the next, so the decision-vector replay would meet the
+    branches in a different order and skip parts of the decision tree (noticed by the replay-divergence guard of engine/symex.py)."""
+
+    def __init__(self, it=()):
+        keys = list(dict.fromkeys(it))
+        self._d = dict.fromkeys(reversed(keys) if SET_ORDER["reverse"] else keys)
+
+    def __iter__(self):
+        return iter(list(self._d))
+
+    def __len__(self):
+        return len(self._d)
+
+    def __contains__(self, x):
+        return x in self._d
+
+    def add(self, x):
+        self._d[x] = None
+
+    def __eq__(self, o):
+        return set(self._d) == (set(o._d) if isinstance(o, DetSet) else o)
+
+    def __hash__(self):
+        raise TypeError("unhashable type: 'set'")
+
+
 def namespaces():
     import magpylib._src.fields.field_wrap_BH as FW
     import magpylib._src.utility as UT
 
     nps = S.NPS()
-    base = dict(np=nps, len=S.s_len, int=S.s_int, zip=S.s_zip, all=S.s_all, max=S.s_max)
+    base = dict(np=nps, len=S.s_len, int=S.s_int, zip=S.s_zip, all=S.s_all, max=S.s_max, set=DetSet)
     ut = rebind(UT, dict(base))
     fw = rebind(FW, dict(base, R=S.RotS, check_static_sensor_orient=ut["check_static_sensor_orient"]))
     real_agg = FW.check_format_pixel_agg
@@ -266,7 +298,7 @@ def in_sensor_frame(sens, m, v):
 ALL_KINDS = frozenset(("element", "shape", "agg", "restore", "safety"))
 
 
-def run_structure(rep, fnl, spec, field="B", sumup=False, squeeze=False, pixel_agg=None, tag="", fault=None, kinds=ALL_KINDS):
+def run_structure(rep, fnl, spec, field="B", sumup=False, squeeze=False, pixel_agg=None, tag="", fault=None, kinds=ALL_KINDS, set_reverse=False):
     """explores the real getBH_level2 on one structure; returns list of failure dicts.
     fault: ("ff", group) | ("agg",): that user-supplied callable raises; then only 'the injected exception propagates' and 'all paths restored' are obligations"""
     fw, _ = namespaces()
@@ -275,6 +307,7 @@ def run_structure(rep, fnl, spec, field="B", sumup=False, squeeze=False, pixel_a
 
     def body():
         c = Ctx.cur
+        SET_ORDER["reverse"] = set_reverse
         sources, sensors, objs, pc = build(spec)
         c.pc.extend(pc)
         c.axioms.extend(S.base_axioms())
@@ -703,6 +736,9 @@ def run(rep, tier, fams=None, stride=None, faults=False, kinds=ALL_KINDS):
     rep.assume("level-2 obligations (checks/l2sym.py) hold for every path length M >= 1, every shorter path length 1 <= n < M, every pixel count K >= 1, all "
                "positions / orientations / field functions; the STRUCTURE (numbers of sources, collections, sensors; nesting; groups) is enumerated: "
                "<= 4 top-level sources, <= 3 leaves per collection, nesting depth 2, <= 3 sensors; pixel arrays of rank <= 2 ((K,3), (3,), None)")
+    rep.assume("iteration order of `set(src_list + sensors)` in getBH_level2 (address-ordered in CPython, different on every run): executed with insertion order "
+               "and with reversed insertion order (alternating from structure to structure); other orders are assumed to behave alike — the loop over the "
+               "set only pads each object's own path")
     jobs = jobs_for(tier, fams, stride, faults, seed=rep.seed)
     if not jobs:
         raise RuntimeError("vacuity: no level-2 structure selected")
@@ -710,11 +746,11 @@ def run(rep, tier, fams=None, stride=None, faults=False, kinds=ALL_KINDS):
     for i, (fam, spec, field, sumup, squeeze, agg, fault) in enumerate(jobs):
         tag = f"{fam}{i}:{field}{',sumup' if sumup else ''}{',squeeze' if squeeze else ''}{',agg=' + agg if agg else ''}{',fault=' + '/'.join(fault) if fault else ''}"
 
-        def task(sub, spec=spec, field=field, sumup=sumup, squeeze=squeeze, agg=agg, tag=tag, fault=fault):
+        def task(sub, spec=spec, field=field, sumup=sumup, squeeze=squeeze, agg=agg, tag=tag, fault=fault, rev=bool(i % 2)):
             old = solve.RECHECK_EVERY
             solve.RECHECK_EVERY = 40  # thorough tier: cvc5 second opinion on every 40th of these (many, similar) VCs
             try:
-                fl = run_structure(sub, fnl, spec, field, sumup, squeeze, agg, tag=tag, fault=fault, kinds=frozenset(kinds))
+                fl = run_structure(sub, fnl, spec, field, sumup, squeeze, agg, tag=tag, fault=fault, kinds=frozenset(kinds), set_reverse=rev)
             finally:
                 solve.RECHECK_EVERY = old
             for f in fl:
